@@ -8,6 +8,7 @@ package server
 //   C11  framing/size monitors run in simPeer's reader (all families)
 
 import (
+	"runtime"
 	"context"
 	"fmt"
 	"net/netip"
@@ -230,6 +231,16 @@ func genWorld(seed uint64, tier string, mode string) *Script {
 					a.Originator = "192.168.9.8"
 				}
 			}
+			if g.p(12) {
+				// already reflected by another route reflector
+				a.ClusterList = pick(g, [][]string{{"192.168.8.1"}, {"192.168.8.1", "192.168.8.2"}, {"192.168.8.10", "192.168.8.9"}})
+				if g.p(12) {
+					a.ClusterList = append(a.ClusterList, "10.0.0.1") // the local cluster-id: must not be used
+				}
+				if a.Originator == "" {
+					a.Originator = "192.168.9.7"
+				}
+			}
 		} else if g.p(8) {
 			a.LocalPref = 300
 		}
@@ -288,6 +299,12 @@ func genWorld(seed uint64, tier string, mode string) *Script {
 			up.Delay = g.n(2000)
 		}
 		p0.Ops = append(p0.Ops, up)
+		if o.Mgmt && g.p(35) {
+			// an operator looks at the neighbour while its session is coming up
+			p0.Ops = append(p0.Ops, Op{Kind: pick(g, []string{"adjout", "adjout", "listpeer"}), Actor: -2 - i, Peer: i, Delay: up.Delay, Count: g.rng(2, 12)})
+			// (the same virtual instant as the handshake: virtual time stands still while the
+			// daemon is busy, so only calls issued at that instant can interleave with it)
+		}
 		for k := g.rng(1, 5); k > 0; k-- {
 			p0.Ops = append(p0.Ops, mkAnn(c))
 		}
@@ -380,7 +397,7 @@ func genWorld(seed uint64, tier string, mode string) *Script {
 				p.Ops = append(p.Ops, Op{Kind: "refresh", Actor: c.Idx, Family: "ipv4-unicast"})
 			default:
 				if o.Mgmt {
-					p.Ops = append(p.Ops, Op{Kind: pick(g, []string{"softout", "softin", "softboth"}), Actor: -1, Peer: c.Idx})
+					p.Ops = append(p.Ops, Op{Kind: pick(g, []string{"softout", "softin", "softboth", "adjout", "listpeer"}), Actor: -1, Peer: c.Idx, Count: 1})
 				} else {
 					p.Ops = append(p.Ops, mkAnn(c))
 				}
@@ -618,6 +635,22 @@ func worldOp(w *simWorld, actor int, op *Op) {
 		if err == nil {
 			w.probe("add_peer")
 		}
+	case "adjout", "listpeer":
+		// read-only management calls, repeated a few times around the instant a session changes state
+		for k := 0; k < op.Count || k == 0; k++ {
+			if op.Kind == "adjout" {
+				_, err := w.listPaths(api.TableType_TABLE_TYPE_ADJ_OUT, w.peers[op.Peer].cfg.Addr, famV4, false)
+				if err != nil {
+					w.logf("ListPath adj-out p%d: %v", op.Peer, err)
+				}
+			} else {
+				_ = w.s.ListPeer(context.Background(), &api.ListPeerRequest{Address: w.peers[op.Peer].cfg.Addr, EnableAdvertised: true}, func(*api.Peer) {})
+			}
+			if k+1 < op.Count {
+				runtime.Gosched()
+			}
+		}
+		w.probe("mgmt_" + op.Kind)
 	case "softin", "softout", "softboth":
 		d := api.ResetPeerRequest_DIRECTION_IN
 		if op.Kind == "softout" {
